@@ -50,7 +50,7 @@ def tla_case(nodes, c):
         tla_bat(nodes, c["bat"]), tla_set(c["pan"]), c["par"], tla_seq(c["plan"], tla_op))
 
 
-def run(*roots):
+def runop(*roots):
     return {"op": "run", "roots": [list(r) for r in roots]}
 
 
@@ -135,7 +135,6 @@ def write_mc(wd, name, nodes, cases, fix=FIXED, props=True, liveness=False, only
         fh.write("SPECIFICATION %s\n" % ("FairSpec" if liveness else "Spec"))
         fh.write("CONSTANTS\n  Nodes = %s\n  NodeOrd <- GenOrd\n  Cases <- GenCases\n  Fix <- GenFix\n  Stale = FALSE\n"
                  % tla_set(nodes))
-        fh.write("VIEW View\n")
         if only_init:
             fh.write("CONSTRAINT OnlyInit\nINVARIANTS Export\nCHECK_DEADLOCK FALSE\n")
         else:
@@ -205,9 +204,9 @@ def fam_c34(graphs, nodes, pars, batch_variants, max_pan, roots_list, two_run=Tr
             for pan in pan_sets(g, nodes, max_pan):
                 for par in pars:
                     for roots in roots_list:
-                        plan = [run(roots)]
+                        plan = [runop(roots)]
                         if pan and two_run:
-                            plan = [run(roots), run(roots)]
+                            plan = [runop(roots), runop(roots)]
                         cases.append({"bat": bat, "pan": pan, "par": par, "plan": plan})
     return cases
 
@@ -226,17 +225,17 @@ def c33_plans(nodes, rich):
     a, c = nodes[0], nodes[-1]
     allr, rev = list(nodes), list(reversed(nodes))
     plans = [
-        [run(allr), evict(c), run(rev)],                        # evict a leaf: everything above recomputes
-        [run([a]), evict(a), run(allr), evict(nodes[1]), run([a])],
-        [run(allr, rev), evict(c), run([a], rev)],              # two concurrent runs, twice
-        [run([a]), evict(c, conc=True), run(allr)],             # Evict overlapping a Run
+        [runop(allr), evict(c), runop(rev)],                        # evict a leaf: everything above recomputes
+        [runop([a]), evict(a), runop(allr), evict(nodes[1]), runop([a])],
+        [runop(allr, rev), evict(c), runop([a], rev)],              # two concurrent runs, twice
+        [runop([a]), evict(c, conc=True), runop(allr)],             # Evict overlapping a Run
     ]
     if rich:
         plans += [
-            [run(rev), evict(nodes[1]), run(allr), evict(a, c), run(rev)],
-            [run([a], [c]), evict(a), run(allr, allr)],
-            [run(allr), evict(nodes[1], conc=True), run(rev), evict(c, conc=True), run(allr)],
-            [run([c]), run(allr), evict(c), evict(a), run([a], [nodes[1]])],
+            [runop(rev), evict(nodes[1]), runop(allr), evict(a, c), runop(rev)],
+            [runop([a], [c]), evict(a), runop(allr, allr)],
+            [runop(allr), evict(nodes[1], conc=True), runop(rev), evict(c, conc=True), runop(allr)],
+            [runop([c]), runop(allr), evict(c), evict(a), runop([a], [nodes[1]])],
         ]
     return plans
 
